@@ -1,17 +1,70 @@
 #!/bin/bash
 # usage: extract.sh <repo-or-crate> <facts_out_dir> [--lib-only]  -- runs the fact extractor
+#
+# The workspace's DEPENDENCIES (registry crates: pyo3, serde, syn, ...) do not change between extractions, so they are compiled
+# once into a pooled target directory (keyed by Cargo.lock + driver + toolchain) under <verif>/.cache/deps and re-used.  The
+# workspace MEMBERS are always re-checked under the driver: their fingerprints are deleted before every run (cargo's freshness
+# cache would otherwise skip the wrapper), the facts directory is fresh, and the caller fails closed when an expected fact file is
+# missing.  A pool slot is held under an exclusive lock for the duration of the run; parallel extractions take different slots.
 set -u
 REPO=$1; OUT=$2; MODE=${3:-}
-T=$(mktemp -d /tmp/bourse-facts-target.XXXXXX)
-trap 'rm -rf "$T"' EXIT
+VERIF="$(cd "$(dirname "$0")/.." && pwd)"
+DRIVER="$VERIF/driver/target/release/bourse-facts"
 mkdir -p "$OUT"
 cd "$REPO" || exit 2
 ARGS="--locked --workspace --all-targets"
 [ "$MODE" = "--lib-only" ] && ARGS="--lib"
-LD_LIBRARY_PATH=$(rustc +nightly --print sysroot)/lib \
-RUSTFLAGS="-Zmir-opt-level=0 -Awarnings" \
-RUSTC_WORKSPACE_WRAPPER="$(cd "$(dirname "$0")/.." && pwd)/driver/target/release/bourse-facts" \
-BOURSE_FACTS_DIR="$OUT" CARGO_TARGET_DIR="$T" CARGO_NET_OFFLINE=true \
-cargo +nightly check --offline $ARGS > "$OUT/cargo.log" 2>&1
+
+run_cargo() {   # $1 = target dir
+  LD_LIBRARY_PATH=$(rustc +nightly --print sysroot)/lib \
+  RUSTFLAGS="-Zmir-opt-level=0 -Awarnings" \
+  RUSTC_WORKSPACE_WRAPPER="$DRIVER" \
+  BOURSE_FACTS_DIR="$OUT" CARGO_TARGET_DIR="$1" CARGO_NET_OFFLINE=true \
+  cargo +nightly check --offline $ARGS > "$OUT/cargo.log" 2>&1
+}
+
+POOL="$VERIF/.cache/deps"
+if [ "${BOURSE_NO_DEPS_POOL:-}" = "1" ] || [ ! -f Cargo.lock ] || ! mkdir -p "$POOL" 2>/dev/null; then
+  T=$(mktemp -d /tmp/bourse-facts-target.XXXXXX)
+  trap 'rm -rf "$T"' EXIT
+  run_cargo "$T"
+  exit $?
+fi
+
+KEY=$( (cat Cargo.lock; sha256sum "$DRIVER"; rustc +nightly --version; echo "$ARGS") | sha256sum | cut -c1-16)
+NSLOTS=${BOURSE_DEPS_SLOTS:-8}
+SLOT=""
+for round in 1 2; do
+  for i in $(seq 1 "$NSLOTS"); do
+    L="$POOL/$KEY-$i.lock"
+    exec 9>"$L"
+    if [ "$round" = 1 ]; then flock -n 9 || { exec 9>&-; continue; }; else flock 9; fi
+    SLOT="$POOL/$KEY-$i"; break
+  done
+  [ -n "$SLOT" ] && break
+done
+[ -z "$SLOT" ] && exit 3
+mkdir -p "$SLOT"
+# workspace members are never fresh: drop their fingerprints and metadata (names from the workspace itself)
+MEMBERS=$(cargo metadata --no-deps --offline --format-version 1 2>/dev/null | python3 -c "
+import sys, json
+try:
+    m = json.load(sys.stdin)
+    print(' '.join(sorted({p['name'] for p in m['packages']})))
+except Exception:
+    pass")
+if [ -z "$MEMBERS" ]; then rm -rf "$SLOT"; mkdir -p "$SLOT"; fi
+for n in $MEMBERS; do
+  u=${n//-/_}
+  rm -rf "$SLOT"/debug/.fingerprint/"$n"-* "$SLOT"/debug/deps/lib"$u"-* "$SLOT"/debug/deps/"$u"-* "$SLOT"/debug/incremental/"$u"-* 2>/dev/null
+done
+rm -rf "$SLOT"/debug/incremental 2>/dev/null
+run_cargo "$SLOT"
 rc=$?
+# keep the pool small: drop slots of other keys that nobody holds
+for d in "$POOL"/*; do
+  case "$d" in *.lock) continue;; "$POOL/$KEY"-*) continue;; esac
+  [ -d "$d" ] || continue
+  ( exec 8>"$d.lock"; flock -n 8 && rm -rf "$d" "$d.lock" ) 2>/dev/null
+done
 exit $rc
